@@ -25,6 +25,7 @@ mod c05;
 mod gen_vp8l;
 mod c01;
 mod c01spec;
+mod c15;
 
 fn main() {
     let args: Vec<String> = std::env::args().collect();
@@ -51,6 +52,7 @@ fn main() {
         "c05" => c05::run(tier, seed, out, extra),
         "c01" => c01::run(tier, seed, out, extra),
         "c01spec" => c01spec::run(tier, seed, out, extra),
+        "c15" => c15::run(tier, seed, out, extra),
         other => {
             eprintln!("unknown check {other}");
             std::process::exit(2);
